@@ -17,6 +17,7 @@ CONTRACT_MODULES = [
     "contracts.mbxml_num",
     "contracts.ipsc",
     "contracts.hstrp_handler",
+    "contracts.storage",
 ]
 
 TRUSTED_BASE = [
@@ -108,5 +109,11 @@ PROPS = {
         level_note="Radio addresses: a pool of two literal radios (the registry key is a formatted string). The parser over-approximation is discharged only for datagram lengths 0, 1, 5, 6 (HSTRP.from_bytes.over_approximation); for longer datagrams it is an assumed (type-level) contract - the parser's own precision is C12's business. Native replay feeds real octets through the real parser. Timing (periodic_maintenance) is out of scope.",
         explanation="contract HSTRPDatagramProtocol.datagram_received (both handler classes)",
         assumptions=["HSTRP.from_bytes over-approximation is assumed for datagrams longer than 6 octets (returns None, raises, or yields an HSTRP with boolean flags / 16-bit sn / HDAP-or-None payload)"],
+    ),
+    "C20": dict(
+        level_text="Inductive proof over operation histories: ONE operation (match_incoming with / without auto-create and each patch kind, save, the lookups, attr / delete_attr / patch, a patch naming 'id') from every storage pre-state of 0..3 records over a pool of 4 literal addresses, reached by histories that also contain missed lookups; patched values symbolic: same object for the same address, creation only on an auto-creating lookup of an unseen address (fresh id, stored under it), len unchanged otherwise, a patch sets exactly the named members / attributes of exactly the matched record, no other record changes, invariant (key = id, ids distinct) re-established.",
+        level_note="Bound: <= 3 records, 4 literal addresses, 6 patch shapes (values symbolic). Hidden state of the storage is only reachable through the histories that build the pre-states (creations preceded / interleaved by missed lookups). uuid4 freshness is an assumption. Mostly concrete exploration (one path per shape).",
+        explanation="contracts RepeaterStorage.match_incoming / lookups / save / patch_of_id, Repeater.attr",
+        assumptions=["uuid.uuid4 returns a fresh id"],
     ),
 }
